@@ -19,6 +19,8 @@ import LinVerif.Lemmas.C14Pool
 import LinVerif.Lemmas.C14BufAlias
 import LinVerif.Lemmas.C14StreamExt
 import LinVerif.Lemmas.C14SnappyReuse
+import LinVerif.Lemmas.C14Rejected
+import LinVerif.Lemmas.C14StreamFree
 
 namespace LinVerif.Props.C14
 open LinVerif LinVerif.Bits LinVerif.Varint
@@ -1348,5 +1350,135 @@ theorem retaining_writer_loses_rows :
 end Neg
 
 end CallerBuffers
+
+/-! ## 11. a rejected or empty input on a REUSED decoder (Round 9)
+
+The empty offset list is written as zero bytes and `Unmarshal` rejects fewer than two bytes, so "decode the empty
+list" IS an error return; `dataScanner` calls `Unmarshal(nil)` to empty its long-lived decoder and `readSeriesData`
+ignores `Unmarshal`'s error on a pooled one. Losslessness under reuse therefore needs: whatever an object held, after
+a rejected or empty input it answers exactly as a fresh object given that input would — never from the previous table. -/
+
+section RejectedInput
+open LinVerif.FixedOffset
+
+/-- **unmarshal_rejected_leaves_fresh.** For EVERY decoder object `d` (any previous table) and EVERY input that
+`Unmarshal` rejects: the object is in the state a fresh decoder is in after the same input, its offsets block is
+empty, every `Get` answers "not found", every `GetBlock` is the corrupted-index error on every data block; for
+fewer than two bytes (the empty table, `Unmarshal(nil)`) it IS the fresh decoder and `Size()` is 0. -/
+theorem unmarshal_rejected_leaves_fresh (d : FixedOffset.Dec) (data : List Nat) (e : UErr)
+    (h : (d.unmarshal data).1 = .error e) :
+    (d.unmarshal data).2 = (FixedOffset.Dec.fresh.unmarshal data).2 ∧
+    (d.unmarshal data).2.block = [] ∧
+    (∀ i, (d.unmarshal data).2.get i = none) ∧
+    (∀ i blk, (d.unmarshal data).2.getBlock i blk = .error .corruptedIndex) ∧
+    (data.length < 2 → (d.unmarshal data).2 = FixedOffset.Dec.fresh ∧ (d.unmarshal data).2.sizeOf = 0) := by
+  have hb := Dec.unmarshal_error_block d data e h
+  refine ⟨rfl, hb, Dec.get_of_block_nil _ hb, Dec.getBlock_of_block_nil _ hb, ?_⟩
+  intro hs
+  rw [Dec.unmarshal_short d data hs]
+  exact ⟨rfl, by decide⟩
+
+/-- **Every reuse history.** Whatever inputs — accepted or rejected, errors ignored — one decoder object was given
+before, after the next input it is the decoder a fresh object is after that input alone (result and state). -/
+theorem fixedoffset_history_irrelevant (d : FixedOffset.Dec) (history : List (List Nat)) (data : List Nat) :
+    (d.feed history).unmarshal data = FixedOffset.Dec.fresh.unmarshal data ∧
+    d.feed (history ++ [data]) = (FixedOffset.Dec.fresh.unmarshal data).2 :=
+  ⟨rfl, Dec.feed_last d history data⟩
+
+/-- TIE: in the source, `Unmarshal` assigns EVERY field of the struct before its first check (the statements in front
+of the first `if` are exactly one assignment per struct field) — what `Dec.unmarshal`'s `d0` mirrors. A field added
+without clearing, a clearing moved behind a check, or a "parse into locals, assign on success" rewrite changes it. -/
+theorem fixedoffset_unmarshal_clears_before_validation :
+    Generated.C14.fixedOffsetDecoderUnmarshalShape.takeWhile (· ≠ "if{") =
+      Generated.C14.fixedOffsetDecoderStructFields.map ("field:" ++ ·) ∧
+    Generated.C14.fixedOffsetDecoderStructFields = ["offsetsBlock", "width", "size"] ∧
+    Generated.C14.fixedOffsetDecoderUnmarshalShape = ["field:offsetsBlock", "field:width", "field:size",
+      "if{", "return", "}", "field:width", "if{", "return", "}", "local:size", "local:readBytes", "if{", "return", "}",
+      "field:size", "local:wantLen", "if{", "return", "}", "field:offsetsBlock", "return"] := by decide
+
+/-- the other decoders that are re-armed with an input: delta `Reset(buf)` on ANY bytes (no rejection exists: the
+reads' errors are ignored), TSD `ResetWithTimeRange` on ANY bytes, `stream.Reader.Reset(buf)` — the re-armed object
+is the fresh one, so it cannot answer from its previous input. TSD `Reset(data)` with at most 4 bytes is the one
+re-arming that keeps the previous block: it reports the rejection through `Error()` (and ONLY so). -/
+theorem rearm_on_any_input_eq_fresh (p : DeltaPack.Dec) (t : Tsd.Dec) (history : List DecOp) (sr : Stream.Reader)
+    (data : List Nat) (s e : Nat) :
+    p.reset data = (DeltaPack.Dec.fresh data) ∧
+    (runDec t history).resetWithTimeRange data s e = Tsd.Dec.zero.resetWithTimeRange data s e ∧
+    sr.reset data = Stream.Reader.fresh data ∧
+    (data.length ≤ 4 → ((runDec t history).reset data).err = true) := by
+  refine ⟨?_, tsd_decoder_reset_range_eq_fresh _ data s e, rfl, ?_⟩
+  · simp [DeltaPack.Dec.reset, DeltaPack.Dec.fresh, Reader.setBuf, Reader.reset, Reader.fresh]
+  · intro h; simp [Tsd.Dec.reset, h]
+
+/-- TIE: `stream.Reader.Reset(buf)` re-initialises every field of the struct (`original`, the sub-reader, `err`) -/
+theorem stream_reader_reset_shape_expected :
+    Generated.C14.streamReaderStructFields = ["original", "reader", "err"] ∧
+    Generated.C14.streamReaderResetShape = ["field:original", "call:reader.Reset", "field:err"] := by decide
+
+/-- non-vacuity: a decoder that holds the table `[0, 5, 15]` is given the empty table (zero bytes), a lone byte, a
+table cut in its value cells, a bad width: every time it ends up without any offset -/
+def heldTable : FixedOffset.Dec := (FixedOffset.Dec.fresh.unmarshal (encOf true [0, 5, 15]).marshal).2
+
+example :
+    let d := heldTable
+    d.sizeOf = 3 ∧ d.get 1 = some 5 ∧
+    (d.unmarshal []).2 = FixedOffset.Dec.fresh ∧ (d.unmarshal [1]).2 = FixedOffset.Dec.fresh ∧
+    errOf (d.unmarshal [1, 3, 0, 5]).1 = some .badLength ∧ (d.unmarshal [1, 3, 0, 5]).2.get 1 = none ∧
+    errOf (d.unmarshal [7, 1, 0]).1 = some .badWidth ∧ (d.unmarshal [7, 1, 0]).2.get 0 = none := by
+  intro d; decide
+
+namespace Neg
+
+/-- what the clearing is needed for: an `Unmarshal` that assigns the receiver only after the last check decodes the
+EMPTY table (zero bytes) on a reused object to the table the object held before -/
+theorem unmarshal_commit_on_success_is_stale :
+    let d := heldTable
+    errOf (d.unmarshalCommitOnSuccess []).1 = some .tooShort ∧
+    (d.unmarshalCommitOnSuccess []).2.sizeOf = 3 ∧ (d.unmarshalCommitOnSuccess []).2.get 1 = some 5 ∧
+    (d.unmarshal []).2.sizeOf = 0 ∧ (d.unmarshal []).2.get 1 = none := by
+  intro d; decide
+
+end Neg
+
+end RejectedInput
+
+/-! ## 12. `stream.Reader` under free-form read sequences, error branches included (Round 9) -/
+
+section StreamFreeForm
+open LinVerif.Stream
+
+/-- **stream_reader_free_form_history.** A reader on ANY buffer, after ANY sequence of calls (numeric reads, varints
+that overflow or run into EOF, `ReadSlice`/`ReadBytes` with negative or too large lengths, `ReadUntil`, reads under a
+pending error, `ReadAt`, `Reset`): the unread part is a suffix of the current buffer (so `Position()` lies inside
+it). For every FORWARD-only continuation from any such state: the buffer is untouched, what was consumed is a prefix
+of what was unread, and when every call is slice-returning the byte strings handed out, concatenated, are exactly
+that prefix — nothing skipped, handed out twice or reordered, whichever errors occurred in between. -/
+theorem stream_reader_free_form_history (data : List Nat) (history forward : List RdOp)
+    (hf : ∀ op ∈ forward, op.sequential = true) :
+    let r : Stream.Reader := ((Stream.Reader.fresh data).run history).2
+    r.Wf ∧ r.position ≤ r.orig.length ∧
+    (∃ c, c ++ (r.run forward).2.rem = r.rem) ∧ (r.run forward).2.orig = r.orig ∧
+    ((∀ op ∈ forward, op.returnsBytes = true) → (r.run forward).1.flatten ++ (r.run forward).2.rem = r.rem) := by
+  intro r
+  have hw : r.Wf := Stream.Reader.run_wf history _ ⟨[], by simp [Stream.Reader.fresh]⟩
+  obtain ⟨h1, h2, h3⟩ := Stream.Reader.run_conserves forward r hf
+  exact ⟨hw, by simp [Stream.Reader.position], h1, h2, h3⟩
+
+/-- `ReadAt(p)` (`SeekStart` = `ReadAt(0)`) with `p` inside the buffer repositions from ANY state — pending error, EOF,
+mid-buffer —: the error is cleared, the unread part is the buffer from `p` on, `Position() = p`. -/
+theorem stream_reader_reposition_from_any_state (r : Stream.Reader) (p : Nat) (hp : p ≤ r.orig.length) :
+    r.readAt p = { orig := r.orig, rem := r.orig.drop p, err := .none } ∧
+    (r.readAt p).position = p ∧ (r.readAt p).unreadSlice = r.orig.drop p :=
+  Stream.Reader.readAt_repositions r p hp
+
+/-- non-vacuity: a varint that overflows, a negative length, a read under the pending error, a short read into EOF
+and a read at EOF, on 13 bytes: the slices handed out are `[]`, `[]`, then after repositioning `[1, 2]`, `[3]`, `[]` -/
+example :
+    ((Stream.Reader.fresh [255, 255, 255, 255, 255, 255, 255, 255, 255, 255, 1, 7, 8]).run
+      [.uv64, .slice (-1), .slice 1, .at 11, .slice 1, .slice 5, .slice 1]).1 =
+      [[], [], [], [], [7], [8], []] ∧
+    ((Stream.Reader.fresh [1, 2, 3]).run [.slice 2, .bytes 4, .until 9]).1 = [[1, 2], [3], []] := by decide
+
+end StreamFreeForm
 
 end LinVerif.Props.C14
